@@ -80,6 +80,7 @@ class Sim(object):
         self.preemptions = 0
         self.line_stall = None       # (probability at a pre-emption point, max seconds): stall the thread there instead of yielding
         self.stalls = 0
+        self.deep_stalls = None      # {function name: [[line offset, seconds, hits left], ...]}
         self.focus_stall = None      # (function name(s), probability per line, max seconds[, line offset in the function, max hits])
         self.focus_hits = 0
         self.stall_log = []          # (virtual start, duration, thread name) of every injected thread stall
@@ -376,19 +377,43 @@ class Sim(object):
         self.line_points = set(self.line_rng.randrange(1, max(est_lines, 2)) for _ in range(points))
         mon.register_callback(tool, mon.events.LINE, self._on_line)
         for f in funcs:
-            code = getattr(f, '__code__', None)
-            if code is None and hasattr(f, '__func__'):
-                code = f.__func__.__code__
-            if code is None:
-                continue
-            mon.set_local_events(tool, code, mon.events.LINE)
-            self._line_codes.append(code)
+            # a decorated function (functools.wraps, e.g. cluster.run_in_executor) is followed to the body it wraps
+            chain = [f]
+            while hasattr(chain[-1], '__wrapped__') and len(chain) < 5:
+                chain.append(chain[-1].__wrapped__)
+            for g in chain:
+                code = getattr(g, '__code__', None)
+                if code is None and hasattr(g, '__func__'):
+                    code = g.__func__.__code__
+                if code is None or code in self._line_codes:
+                    continue
+                mon.set_local_events(tool, code, mon.events.LINE)
+                self._line_codes.append(code)
 
     def _on_line(self, code, lineno):
         t = self.running
         if t is None or t.real_ident != _thread.get_ident() or t.no_preempt:
             return
         self.line_count += 1
+        ds = self.deep_stalls
+        if ds:
+            lst = ds.get(code.co_name)
+            if lst:
+                rel = lineno - code.co_firstlineno
+                for e in lst:
+                    if e[0] == rel and e[2] > 0:
+                        # deep change points: a thread reaching this line of this function sits there for e[1] seconds (the first
+                        # e[2] times); several points in different functions may be planted in one run
+                        e[2] -= 1
+                        self.focus_hits += 1
+                        self.stall_log.append((self.now - T0, e[1], t.name))
+                        self.stalls += 1
+                        self.preemptions += 1
+                        self.rec('fault', 'thread stall %s at %s+%d %.4fs' % (t.name, code.co_name, rel, e[1]))
+                        if self.fault_counter is not None:
+                            self.fault_counter('thread_stall')
+                        self.block([], e[1], 'line-stall')
+                        return
         fs = self.focus_stall
         if fs and (code.co_name == fs[0] or (type(fs[0]) is not str and code.co_name in fs[0])) and \
                 (len(fs) < 4 or (lineno - code.co_firstlineno == fs[3] and self.focus_hits < fs[4])) and self.line_rng.random() < fs[1]:
